@@ -160,6 +160,43 @@ def stmt_failure(c):
     return None
 
 
+def add_junk(c, rng):
+    """a strong peak with a non-finite coordinate (a failed refinement): it lies on no lattice position, so it is an outlier like any other"""
+    c = dict(c)
+    junk = [(np.nan, np.nan), (np.nan, 40.0), (np.inf, np.inf), (55.0, -np.inf)][int(rng.integers(0, 4))]
+    at = int(rng.integers(0, len(c['pos']) + 1))
+    c['pos'] = np.insert(c['pos'], at, junk, axis=0)
+    c['w'] = np.insert(c['w'], at, float(rng.uniform(0.5, 3.0)))
+    c['kinds'] = c['kinds'][:at] + ['outlier'] + c['kinds'][at:]
+    c['true_idx'] = c['true_idx'][:at] + [None] + c['true_idx'][at:]
+    return c
+
+
+def defaults_failure(c):
+    """the optional arguments of fastmatch: refineds defaults to the centres, peak values and peak elevations default to ones -- a call that
+    omits an argument must give the result of the call that passes the default explicitly"""
+    n = len(c['pos'])
+    full = dict(centers=c['pos'], refineds=c['pos'], peak_values=np.ones(n), peak_elevations=np.ones(n))
+    given = dict(centers=c['pos'], refineds=c['pos'] + 0.0, peak_values=np.where(np.isnan(c['w']), 0.05, c['w']), peak_elevations=np.where(np.isnan(c['w']), 0.05, c['w']))
+    for keys in (('centers',), ('centers', 'refineds'), ('centers', 'peak_values'), ('centers', 'peak_elevations'), ('centers', 'refineds', 'peak_values'),
+                 ('centers', 'refineds', 'peak_elevations'), ('centers', 'peak_values', 'peak_elevations')):
+        res = []
+        for explicit in (False, True):
+            kw = {k: (given[k] if k in keys else full[k]).copy() for k in (full if explicit else keys)}
+            m = grm.Matcher(tolerance=c['tol'], min_weight=c['mw'], min_match=c['mm'])
+            try:
+                res.append(m.fastmatch(zero=c['start'][0].copy(), a=c['start'][1].copy(), b=c['start'][2].copy(), **kw))
+            except Exception as e:  # noqa
+                return 'fastmatch(%s) raised %s: %s' % (', '.join(keys), type(e).__name__, e)
+        m0, m1 = res
+        same = (m0.isnan() == m1.isnan()) and np.array_equal(m0.selector, m1.selector) and np.array_equal(m0.indices, m1.indices) and (
+            m0.isnan() or (np.allclose(m0.zero, m1.zero, atol=1e-9) and np.allclose(m0.a, m1.a, atol=1e-9) and np.allclose(m0.b, m1.b, atol=1e-9)))
+        if not same:
+            return ('fastmatch called with only (%s) differs from the call that passes the documented defaults (refineds = centres, values = elevations = 1) explicitly: '
+                    'selected %d vs %d peaks, zero %s vs %s' % (', '.join(keys), int(m0.selector.sum()), int(m1.selector.sum()), np.asarray(m0.zero).tolist(), np.asarray(m1.zero).tolist()))
+    return None
+
+
 def covariance_failure(c, rng):
     m0 = run_impl(c)
     th = rng.uniform(0, 2 * np.pi)
@@ -212,7 +249,7 @@ def replay(body):
     a = body['args']
     c = dict(pos=np.array(a['pos']), w=np.array(a['w']), kinds=a['kinds'], true_idx=[None if t is None else tuple(t) for t in a['true_idx']],
              start=tuple(np.array(v) for v in a['start']), tol=a['tol'], mw=a['mw'], mm=a['mm'], complete=a.get('complete', True))
-    fail = stmt_failure(c)
+    fail = defaults_failure(c) if a.get('defaults') else stmt_failure(c)
     print(json.dumps({'failure_now': fail}, indent=1))
     if fail:
         print('VIOLATION property=C05 replay=(given)')
@@ -307,10 +344,20 @@ def run(ctx):
     # (S) statement + covariance + adversarial
     for k in range(ctx.n(300, 10000)):
         c = gen(rng)
+        if k % 7 == 3:
+            c = add_junk(c, rng)
+            ctx.hist('non-finite junk peak', 1)
         fail = stmt_failure(c)
         ctx.count(1)
-        if not fail and k % 4 == 0:
+        if not fail and k % 4 == 0 and k % 7 != 3:
             fail = covariance_failure(c, rng)
+        if not fail and k % 5 == 0 and k % 7 != 3:
+            fail = defaults_failure(c)
+            if fail:
+                r = mk_replay(c, fail)
+                r['args']['defaults'] = True
+                ctx.violation('input', fail, r)
+                break
         if fail:
             ctx.violation('input', fail, mk_replay(c, fail), signature='fastmatch: valid match with fewer than min_match points' if 'min_match' in fail and 'valid match with' in fail else fail)
             break
@@ -342,6 +389,10 @@ def run(ctx):
         try:
             m = grm.Matcher(tolerance=3, min_weight=0.1, min_match=3).fastmatch(**kw)
             okk = m.isnan() or (len(m.indices) == int(m.selector.sum()) and int(m.selector.sum()) >= 3)
+            if desc in ('NaN position', 'inf position'):
+                # one of nine lattice peaks has a non-finite coordinate: it matches nothing, the other eight are on lattice positions
+                bad = ~np.isfinite(kw['refineds']).all(axis=1)
+                okk = (not m.isnan()) and np.array_equal(m.selector, ~bad) and len(m.indices) == 8
             if not okk:
                 ctx.violation('input', 'adversarial input (%s): malformed result' % desc, {'kind': 'input', 'call': 'Matcher.fastmatch', 'args': {'adversarial': desc}})
         except Exception as e:  # noqa
@@ -356,4 +407,4 @@ def run(ctx):
                     'lstsq row weights regenerated from the source text (bridge lemmas) and the whole two-round '
                     'fastmatch in exact rationals vs Matcher.fastmatch on the same floats (selection, indices, lattice, validity).',
         rule='lattices |a|,|b| 20..40 px at 60..120 degrees, 4..25 inliers of rank 3 with noise <= 0.3 px, 0..6 half-cell outliers, 0..3 weak peaks (30 % of them with NaN elevation), permuted, start '
-             'perturbed by up to 1 px / 0.2 px (completeness demanded only when the worst-case first-round error stays below the tolerance), tolerances, min_match (also at the threshold); adversarial stream (empty, parallel, zero, NaN, inf, duplicates, collinear, zero weights).')
+             'perturbed by up to 1 px / 0.2 px (completeness demanded only when the worst-case first-round error stays below the tolerance), tolerances, min_match (also at the threshold); adversarial stream (empty, parallel, zero, NaN, inf, duplicates, collinear, zero weights); strong junk peaks with non-finite coordinates; optional arguments omitted vs documented defaults passed explicitly.')
